@@ -92,6 +92,20 @@ class Hooks(L.Life):
     def post_action(self, w, st, market, act, o, out):
         if o is None or self.pre is None:
             return
+        if act[0] == "XC":
+            # the order belongs to another client than the transaction: refused whether forced or not
+            before = self.pre[0]
+            self.pre = None
+            self.c("clause:C02.e")
+            self.c("cross_client_requests")
+            kind = {"C": "cancel", "U": "update", "R": "replace"}[act[1]]
+            if out is True:
+                self.v("C02.e", (kind, "cross-client-accepted", "forced" if act[5] else "unforced"), "%s %s of an order of client 0 accepted through the transaction of client %d" % ("forced" if act[5] else "unforced", kind, act[4]))
+            else:
+                d = L.snap_diff(before, L.snapshot(w, o))
+                if d:
+                    self.v("C02.a", (kind, "cross-client", before[0], d[0]), "refused cross-client %s changed %s" % (kind, d))
+            return
         before = self.pre[0]
         self.pre = None
         k = {"P": "place", "C": "cancel", "U": "update", "R": "replace"}[act[0]]
@@ -278,7 +292,7 @@ def _run(args):
         w.clients[0].trading_controls.append(cspy)
         h.spies.append(cspy)
 
-    w = simx.SimWorld([(spec, ticks)], [dict(script=scripts[0], kw=skw)], hooks=h, client_kw=dict(transaction_limit=cfg.get("transaction_limit", 5000)), flumine_setup=setup)
+    w = simx.SimWorld([(spec, ticks)], [dict(script=scripts[0], kw=skw)], hooks=h, client_kw=dict(transaction_limit=cfg.get("transaction_limit", 5000)), flumine_setup=setup, n_clients=cfg.get("n_clients", 1))
     w.tx_seen = []
     w.run()
     if w.run_exception is not None:
@@ -531,6 +545,16 @@ def run(tier):
     for cfg in cfgs:
         cfg["rich"] = thorough
         c04.explore(rep, {"C02"}, alphabet, tier, [cfg], depth_q=4 if cfg["name"] in ("default", "slow") else 3, depth_t=4, dev_k_q=0, dev_k_t=0, horizon=0, run=_run)
+    # two clients: requests on an order of client 0 through the transaction of client 1, forced and unforced
+    def alpha2(dt, rich):
+        A = [L.tick(dt), L.tick(dt, "Q", [REQ["good"]]), L.tick(dt, "T21")]
+        for kind, arg in (("C", None), ("U", "PERSIST"), ("R", 2.3)):
+            for force in (False, True):
+                A.append(L.tick(dt, "Q", [["XC", kind, 0, arg, 1, force]]))
+        return A
+
+    c04.explore(rep, {"C02"}, alpha2, tier, [dict(name="two-clients", dt=200, n_clients=2, rich=False)], depth_q=3, depth_t=3, dev_k_q=0, dev_k_t=0, horizon=0, run=_run)
+    rep.need("cross_client_requests")
     # a runner without lay offers (one empty ladder side); the flumine loggers raised to CRITICAL
     nolay = {k: (dict(v, atl=[]) if k == 1 else v) for k, v in L.BOOK0.items()}
     for cfg in (dict(name="no-lay-offers", dt=200, book0=nolay), dict(name="quiet-logging", dt=200, loglevel=50)):
